@@ -519,6 +519,8 @@ func (a *AddrManager) nextAddresses(dbTransaction db.DBTransaction, internal boo
 }
 
 func (a *AddrManager) updateManagedAddress(dbTransaction db.ReadTransaction, managedAddresses []*ManagedAddress) error {
+	a.mu.Lock()
+	defer a.mu.Unlock()
 	for _, managedAddress := range managedAddresses {
 		a.addrs[managedAddress.address] = managedAddress
 	}
@@ -737,6 +739,8 @@ func (a *AddrManager) Name() string {
 }
 
 func (a *AddrManager) Remarks() string {
+	a.mu.Lock()
+	defer a.mu.Unlock()
 	return a.remark
 }
 
